@@ -919,7 +919,17 @@ func c17FanOut(p *core.Prog, r *core.Report, la *core.LockAnalysis) {
 					o := l.Field.Owner
 					for _, pre := range []string{"local:", "param:", "free:"} {
 						if strings.HasPrefix(o, pre) {
-							return pre != "local:" && strings.TrimPrefix(o, pre) == core.FnKey(b.fn)
+							if pre == "local:" {
+								// a mutex declared in a function that encloses the fan-out body exists once for all
+								// instances; one declared in the body (or below it) is the instance's own
+								for par := b.fn.Parent(); par != nil; par = par.Parent() {
+									if strings.TrimPrefix(o, pre) == core.FnKey(par) {
+										return true
+									}
+								}
+								return false
+							}
+							return strings.TrimPrefix(o, pre) == core.FnKey(b.fn)
 						}
 					}
 					return true
